@@ -76,6 +76,35 @@ def compare_parsed(bib, text, toks, out, parsed, lib):
     return None
 
 
+def resolution_by_key(bib, text, toks, out, parsed, lib):
+    """When the block structure itself differs from the specification (a scanner matter, C01-C03) the references of
+    the entries that ARE there can still be judged: entry by key, field by key - a bare reference to a defined string
+    holds that string's content."""
+    M = bib.model
+
+    def txt(r):
+        a, b = r
+        return text[toks[a - 1].s:toks[b - 2].e] if a < b else ""
+    real = {}
+    for b in lib.blocks:
+        if isinstance(b, M.Entry):
+            real.setdefault(b.key, b)
+    for o, p in zip(out, parsed):
+        if not p.get("live") or p.get("t") != "entry":
+            continue
+        b = real.get(txt(o["key"]))
+        if b is None:
+            continue
+        fd = {}
+        for f in b.fields:
+            fd.setdefault(f.key, f)
+        for pf, of in zip(p["fields"], o["fields"]):
+            if pf["resolved"] and txt(of["key"]) in fd and fd[txt(of["key"])].value != txt(pf["val"]):
+                return "resolved_exactly", (f"entry {b.key!r} field {txt(of['key'])!r} (source value {txt(of['val'])!r}) holds "
+                                            f"{fd[txt(of['key'])].value!r}, expected {txt(pf['val'])!r} (reference resolved)")
+    return None
+
+
 class _Tail:
     def __init__(self, blocks):
         self.blocks = blocks
@@ -150,7 +179,7 @@ def run(chk: core.Check):
             report(chk, clause, detail, text)
     # ---- T3 ----
     pool = ["a", "b", "c", "A", "ß", "ss"]
-    refvals = pool + ["{a}", '"b"', "a # b", "1", "c # {x}", '"a" # b', "{ a }", "ab"]
+    refvals = pool + ["{a}", '"b"', "a # b", "1", "c # {x}", '"a" # b', "{ a }", "ab", '"a" # "b"', "{a} # {b}", '"Long " # "Name"', '{x} # "y"']
     docs = []
     for i in range(nrand):
         d = docgen.Doc()
@@ -162,7 +191,10 @@ def run(chk: core.Check):
                                  fields=[(k, rnd.choice(refvals)) for k in rnd.sample(["title", "journal", "month", "x"], rnd.randint(0, 3))])
             docgen.gen_gap(d, rnd)
         # every fourth document with CRLF line ends (the carriage return is a blank of its own for the scanner)
-        docs.append(d.text.replace("\n", "\r\n") if i % 4 == 3 else d.text)
+        text = d.text.replace("\n", "\r\n") if i % 4 == 3 else d.text
+        if i % 16 == 5:
+            text = "\ufeff" + text.lstrip()      # a byte-order mark (or any other character) directly in front of the first block
+        docs.append(text)
     # ... and a sample of the T2 documents in CRLF spelling (their token sequence changes, so they go through the oracle)
     for line in rnd.sample(lines, min(len(lines), nrand // 5)):
         docs.append(concretise(core.parse_export(line)["w"], 0).replace("\n", "\r\n"))
@@ -195,6 +227,8 @@ def run(chk: core.Check):
                 continue
             raise
         # ... except where the difference makes a reference go unresolved (or a non-reference resolved): that is C11's own
+        if bad and scanner_differs and bad[0] == "blocks":
+            bad = resolution_by_key(bib, r["text"], toks, r["out"], r["parsed"], lib)
         if bad and (not scanner_differs or bad[0] in ("resolved_exactly", "recorded")):
             report(chk, bad[0], bad[1], r["text"])
     chk.traces += len(docs)
